@@ -74,11 +74,51 @@ char* __cxa_allocate_exception(uint64_t n) { ++n_alloc_exn; char* p = malloc(16)
 void __cxa_free_exception(char* p) { ++n_free_exn; free(p); }
 char* __cxa_begin_catch(char* p) { return p; }
 void __cxa_end_catch(void) {}
-void _ZNSt13runtime_errorC1EPKc(char* self, char* msg) { ((struct exn*)self)->vt = exn_vtable; ((struct exn*)self)->msg = "runtime_error"; }
+/* std::runtime_error.  what() of a caught exception is handed to the logger AS THE FORMAT with no
+ * arguments (LOGE(e.what()) in every barrier of the unit), so a message must not contain a
+ * conversion.  Whether it does is determined where the exception is constructed (there the text is
+ * a concrete literal or a string the unit has just built); the logger checks that a message with
+ * a conversion is never used as its format.  (Walking the text inside the logger instead made
+ * every walk symbolic, because a catch block sees the exceptions of several throw sites.) */
+#define MSGMAX 96
+static const char* last_msg;      /* message of the exception constructed last */
+static int last_msg_has_conv;
+static char msg_copy[MSGMAX + 1];
+static int
+has_conversion(const char* m, uint64_t n)
+{
+    int r = 0;
+    for (uint64_t i = 0; i < MSGMAX; ++i)
+        if (i < n && m[i] == '%' && !(i + 1 < n && m[i + 1] == '%') && !(i > 0 && m[i - 1] == '%')) r = 1;
+    return r;
+}
+void
+_ZNSt13runtime_errorC1EPKc(char* self, char* msg)
+{
+    /* the real class copies the text; the model keeps the pointer (every such message in the unit is a
+     * literal or a buffer of the function that also catches the exception) */
+    uint64_t n = 0;
+    for (int i = 0; i < MSGMAX; ++i) { if (msg[n] == 0) break; ++n; }
+    ((struct exn*)self)->vt = exn_vtable; ((struct exn*)self)->msg = msg;
+    last_msg = msg; last_msg_has_conv = has_conversion(msg, n);
+}
+struct sstr_view { char* p; uint64_t size; };
+void
+_ZNSt13runtime_errorC1ERKNSt7__cxx1112basic_stringIcSt11char_traitsIcESaIcEEE(char* self, char* str)
+{
+    const char* p = ((struct sstr_view*)str)->p; uint64_t n = ((struct sstr_view*)str)->size;
+    VASSERT(n <= MSGMAX, "harness bound: exception message longer than MSGMAX");
+    for (uint64_t i = 0; i < MSGMAX; ++i)
+        if (i < n) msg_copy[i] = p[i];
+    msg_copy[n] = 0;
+    ((struct exn*)self)->vt = exn_vtable; ((struct exn*)self)->msg = msg_copy;
+    last_msg = msg_copy; last_msg_has_conv = has_conversion(msg_copy, n);
+}
 void _ZNSt13runtime_errorD1Ev(char* self) {}
 static void lib_throw(const char* what) { thrown_by_lib.vt = exn_vtable; thrown_by_lib.msg = what; verif_exn = (char*)&thrown_by_lib; }
 void _ZSt24__throw_out_of_range_fmtPKcz(char* fmt, ...) { lib_throw("out_of_range"); }
 void _ZSt20__throw_length_errorPKc(char* m) { lib_throw("length_error"); }
+void _ZSt19__throw_logic_errorPKc(char* m) { lib_throw("logic_error"); }
 void _ZSt17__throw_bad_allocv(void) { lib_throw("bad_alloc"); }
 void _ZSt28__throw_bad_array_new_lengthv(void) { lib_throw("bad_array_new_length"); }
 void __clang_call_terminate(char* e) { VASSERT(0, "C12: std::terminate reached (exception escaped a noexcept region)"); }
@@ -157,7 +197,19 @@ _ZdlPv(char* p)
 }
 
 /* ---- logger and helpers of the C side ---- */
-void aq_logger(uint32_t is_error, char* file, uint32_t line, char* function, char* fmt, ...) {}
+/* The logger is printf-like.  The one use the model looks at is the barrier idiom LOGE(e.what()):
+ * the message of the exception constructed last, used as the FORMAT with no arguments, must not
+ * contain a conversion (see the runtime_error models above).  A general walk of every format that
+ * consumes one variadic argument per conversion was built and dropped: ~200 log call sites are
+ * reached per run and the walk cost 13-28 M clauses (2 s -> no verdict in 2 min). */
+static int log_calls;
+void
+aq_logger(uint32_t is_error, char* file, uint32_t line, char* function, char* fmt, ...)
+{
+    ++log_calls;
+    if (fmt == last_msg)
+        VASSERT(!last_msg_has_conv, "C12: an exception message that contains a conversion (text built from caller input) is used as the logger's format: the C library reads arguments that do not exist");
+}
 char* device_kind_as_string(uint32_t k) { return (char*)"kind"; }
 uint64_t device_identifier_as_debug_string(char* buf, uint64_t n, char* id) { if (n) buf[0] = 0; return 0; }
 int snprintf(char* buf, size_t n, const char* fmt, ...) { if (n) buf[0] = 0; return 0; } /* message text of the error path: not the subject */
@@ -166,23 +218,9 @@ int snprintf(char* buf, size_t n, const char* fmt, ...) { if (n) buf[0] = 0; ret
 void _ZNSt6localeC1Ev(char* self) {}
 void _ZNSt6localeD1Ev(char* self) {}
 
-/* ---- std::string::_M_replace(pos, len1, s, len2) for the one use in the unit: assign to an
- *      empty small string (pos == 0, len1 == 0); small-string layout {ptr, size, buf[16] | cap} ---- */
-struct sstr { char* p; uint64_t size; union { char buf[16]; uint64_t cap; } u; };
+/* (std::string's member functions are instantiated in the unit's own IR and are translated with it:
+ * no model of std::string is needed) */
 #define SPMAX 15 /* longest pattern text in any mode (the built-in defaults have 10 characters) */
-char*
-_ZNSt7__cxx1112basic_stringIcSt11char_traitsIcESaIcEE10_M_replaceEmmPKcm(char* self, uint64_t pos, uint64_t len1, char* s, uint64_t len2)
-{
-    struct sstr* str = (struct sstr*)self;
-    VASSERT(pos == 0 && len1 == 0 && str->size == 0 && str->p == str->u.buf, "harness bound: _M_replace is only modelled for assignment to an empty string");
-    VASSERT(len2 <= SPMAX, "harness bound: pattern longer than the small-string buffer");
-    for (uint64_t i = 0; i < SPMAX; ++i)
-        if (i < len2) str->p[i] = s[i]; /* reads exactly len2 bytes of the caller's buffer */
-    str->p[len2] = 0;
-    str->size = len2;
-    return self;
-}
-
 /* ---- the regex engine as an oracle ---- */
 static int compile_calls, compile_throws, match_calls, regex_dtor_calls;
 static char seen_pattern[SPMAX + 1];
@@ -312,8 +350,12 @@ main(void)
     compile_throws = ND(uint8_t) & 1;
 #if MODE == 1
     static char pat[PMAX];
+#ifdef PLEN
+    const uint64_t plen = PLEN; /* the pattern LENGTH is fixed per harness instance (the std::string code then runs with concrete sizes); its bytes stay symbolic */
+#else
     uint64_t plen = ND(uint8_t);
     VASSUME(plen <= PMAX);
+#endif
     for (int i = 0; i < PMAX; ++i) pat[i] = (char)ND(uint8_t);
     uint8_t null_name = ND(uint8_t) & 1, variant = ND(uint8_t);
     VASSUME(variant < 3);
@@ -394,12 +436,21 @@ main(void)
         VASSERT(ident_eq(out, ids[want].id), "C12: the selected device is not the FIRST enumerated one of the kind whose name matches");
     }
     VASSERT(match_order_ok, "C12: candidates are not tried in enumeration order");
+#if defined(PLEN) && MODE == 1
+    COVER(want == 1 && n == 3);
+    COVER(want < 0 && n >= 2);
+#else
     COVER(want == 1 && n == 3 && !any);
     COVER(want == 0 && any);
     COVER(want < 0 && n >= 2);
+#endif
 #if MODE == 1
+#ifndef PLEN
     COVER(plen == PMAX && slen < plen && slen > 0);
     COVER(plen >= 2 && clen < slen);
+#else
+    COVER(plen < 2 || slen < plen);
+#endif
 #endif
     WITNESS_END();
 #elif MODE == 2
